@@ -2,3 +2,4 @@ import MudExec.Proto
 import MudExec.OpsA
 import MudExec.OpsB
 import MudExec.OpsC
+import MudExec.OpsD
